@@ -225,6 +225,12 @@ impl AffTree<2> {
             && forall|h0: Map<usize, nat>, h1: Map<usize, nat>, x: V| #![trigger tree_fn(old(self).a(), h0, old(self).tree.root.unwrap(), x), tree_fn(final(self).a(), h1, old(self).tree.root.unwrap(), x)]
                 ranked_down(old(self).a(), h0) && ranked_down(final(self).a(), h1) && !blamed_path(old(self).a(), h0, old(self).tree.root.unwrap(), b, x)
                     ==> tree_fn(final(self).a(), h1, old(self).tree.root.unwrap(), x) == tree_fn(old(self).a(), h0, old(self).tree.root.unwrap(), x),
+        // COROLLARY - C03 for infeasible_elimination reduced to the soundness of the LP layer: if every Infeasible LP answer is right and no input reaches
+        // a node cached infeasible at entry, the function is unchanged for EVERY input of the tree's dimension
+        lp_sound(old(self).in_dim) && entry_marks_sound(old(self).a(), old(self).tree.root.unwrap()) ==>
+            forall|h0: Map<usize, nat>, h1: Map<usize, nat>, x: V| #![trigger tree_fn(old(self).a(), h0, old(self).tree.root.unwrap(), x), tree_fn(final(self).a(), h1, old(self).tree.root.unwrap(), x)]
+                ranked_down(old(self).a(), h0) && ranked_down(final(self).a(), h1) && x.len() == old(self).in_dim
+                    ==> tree_fn(final(self).a(), h1, old(self).tree.root.unwrap(), x) == tree_fn(old(self).a(), h0, old(self).tree.root.unwrap(), x),
 //@hint loop 1 before
         let ghost a0 = self.a();
         let ghost d0 = self.a().dom();
@@ -379,7 +385,10 @@ impl AffTree<2> {
                 regions_ok(a0, hs, root, vp, self.in_dim), wf_at(a0, Some(root)),
             decreases to_remove@.len() - __j
 //@hint loop 2 after
-        proof { lemma_sem_final(a0, hs, self.a(), root, b); lemma_regions_final(a0, hs, root, vp, self.in_dim); }
+        proof {
+            lemma_sem_final(a0, hs, self.a(), root, b); lemma_regions_final(a0, hs, root, vp, self.in_dim);
+            if lp_sound(self.in_dim) && entry_marks_sound(a0, root) { lemma_unconditional(a0, self.a(), root, b, vp, self.in_dim); }
+        }
 //@hint before let _ = self.tree.try_remove_child(node, label);
                 let ghost a_r = self.a();
                 proof { vstd::set_lib::lemma_len_subset(a_r.dom(), a0.dom()); }
